@@ -27,10 +27,13 @@ def _limit():
     gb = int(os.environ.get('VERIF_MEM_GB', '14'))
     resource.setrlimit(resource.RLIMIT_AS, (gb << 30, gb << 30))
 
-def run(cmd, timeout, log=None, cwd=None):
+def run(cmd, timeout, log=None, cwd=None, mem_gb=None):
     t0 = time.time()
+    def lim():
+        gb = mem_gb or int(os.environ.get('VERIF_MEM_GB', '14'))
+        resource.setrlimit(resource.RLIMIT_AS, (gb << 30, gb << 30))
     try:
-        p = subprocess.run(cmd, capture_output=True, timeout=timeout, preexec_fn=_limit, cwd=cwd)
+        p = subprocess.run(cmd, capture_output=True, timeout=timeout, preexec_fn=lim, cwd=cwd)
         return p.returncode, p.stdout.decode('utf-8', 'replace'), p.stderr.decode('utf-8', 'replace'), time.time() - t0
     except subprocess.TimeoutExpired as e:
         return 'timeout', (e.stdout or b'').decode('utf-8', 'replace'), (e.stderr or b'').decode('utf-8', 'replace'), time.time() - t0
@@ -270,7 +273,7 @@ def run_query(builder, q, vars_, tier, workroot):
             if q.unwindset: base += ['--unwindset', ','.join(subst(x, vars_).replace('TARGET', target + '_wrapped_for_contract_checking') for x in q.unwindset)]
             base += [subst(f, vars_) for f in q.flags]
             cb = list(base)
-            rc, so, se, dt = run(cb, timeout)
+            rc, so, se, dt = run(cb, timeout, mem_gb=q.mem_gb)
             if rc != 'timeout' and 'too many addressed objects' in (so + se) and obits < 16:
                 obits += 2; continue
             break
@@ -294,7 +297,7 @@ def run_query(builder, q, vars_, tier, workroot):
         if bad:
             cb2 = list(base) + ['--json-ui']
             for pr in bad[:6]: cb2 += ['--property', pr]
-            rc2, so2, se2, dt2 = run(cb2, min(timeout, 300))
+            rc2, so2, se2, dt2 = run(cb2, min(timeout, 300), mem_gb=q.mem_gb)
             open(os.path.join(qdir, 'cbmc.json'), 'w').write(so2 if isinstance(so2, str) else '')
             try:
                 for item in json.loads(so2):
@@ -378,6 +381,18 @@ def run_query(builder, q, vars_, tier, workroot):
             nloops = hooks.loops_seen.get(c, 0)
         unwound_failed = [o for o in res.failed if 'unwinding assertion' in o['description'] or '.unwind.' in o['property']]
         if unwound_failed:
+            # an unwinding assertion that is not discharged makes every PROOF of this query worthless, but not a refutation:
+            # a counterexample of a labelled obligation stays a counterexample.  Failures that depend on the truncated loop
+            # itself (the write-set bookkeeping of the contracts library: assigns / frees inclusion) and everything cbmc left
+            # UNKNOWN are not believed; if nothing else failed the query is undecided.
+            genuine = [o for o in res.failed if o not in unwound_failed and o.get('status') == 'FAILURE'
+                       and not re.search(r"#auto\.(assigns|frees|no_alloc|loop_assigns)", o['name'])
+                       and not o.get('function', '').startswith('__CPROVER_contracts')]
+            labelled = [o for o in genuine if '#auto.' not in o['name']]
+            if labelled:
+                res.failed = labelled
+                res.reason = 'refuted (unwinding assertion %s not discharged: the other obligations of this query are undecided)' % unwound_failed[0]['property']
+                res.status = 'fail'; return res
             res.reason = 'unwinding assertion failed (loop without contract or bound too small): %s' % unwound_failed[0]['property']
             res.status = 'undecided'; return res
         res.status = 'fail' if res.failed else 'pass'
